@@ -16,21 +16,7 @@ extern "C" __attribute__((used, visibility("default"))) const char *__ubsan_defa
 static ssize_t cookie_write(void *, const char *buf, size_t n) { if (g_capture) g_capture->append(buf, n); return (ssize_t)n; }
 static FILE *g_real_out = nullptr;
 
-const Engine *const ALL_ENGINES[] = {
-    &ENGINE_NAV,
-#ifdef SIM_DEV_ENGINES
-    SIM_DEV_ENGINES
-#endif
-#ifndef SIM_ONLY_NAV
-    &ENGINE_SLOPPY, &ENGINE_TRAVERSE, &ENGINE_CAPACITY, &ENGINE_TOSTRING, &ENGINE_REUSE,
-#ifdef SIM_WITH_CPP
-    &ENGINE_CPPWRAP,
-#endif
-#ifdef SIM_WITH_THREADS
-    &ENGINE_INTERLEAVE,
-#endif
-#endif
-    nullptr};
+const Engine *const ALL_ENGINES[] = {&ENGINE_NAV, &ENGINE_SLOPPY, &ENGINE_TRAVERSE, &ENGINE_CAPACITY, &ENGINE_TOSTRING, &ENGINE_REUSE, &ENGINE_CPPWRAP, &ENGINE_INTERLEAVE, nullptr};
 
 const Engine *find_engine(const std::string &name) {
     for (size_t i = 0; ALL_ENGINES[i]; i++) if (name == ALL_ENGINES[i]->name) return ALL_ENGINES[i];
@@ -55,7 +41,6 @@ static std::vector<CheckSpec> make_specs() {
     add("C11", "exploration", {{"nav", 200000}}, {{"nav", 6000000}},
         "nav engine with get_raw / parser_to_writer at any position after any navigation history; span, standalone validity (real verify on a fresh parser), bytes appended to an exact-size writer, cursor afterwards; on scalars both must return false and change nothing. non-trivial = at least one container raw-extracted/skipped/left early; attributed to C11 only if the minimised history still contains raw/towriter",
         {"reference cursor correct", "sampling"});
-#if !defined(SIM_ONLY_NAV) || defined(SIM_DEV_ENGINES)
     add("C01", "exploration", {{"sloppy", 250000}}, {{"sloppy", 8000000}},
         "each run: delivered bytes = valid / truncated / corrupted / random document in an exact-size heap block, parser struct and state array of exactly max_depth entries pre-filled with PRNG garbage, 1..60 calls over the whole public parser API with return values ignored (lookups only while structurally inside an object). oracle: no ASan/UBSan report, every returned span inside the delivered block, buffer unchanged. non-trivial = at least 3 calls returned true or an error class other than init rejection was reached",
         {"ASan/UBSan detect the out-of-bounds accesses (exact-size heap blocks, no slack)", "sampling"});
@@ -77,12 +62,13 @@ static std::vector<CheckSpec> make_specs() {
     add("C12", "exploration", {{"reuse", 150000}}, {{"reuse", 5000000}},
         "phase A (any sloppy/protocol history on document A) is abandoned at a random step, optionally struct+state array are scribbled, then restart by init_object/init_array (new buffer or rewritten in place), reset or verify, then phase B; the same restart+phase B runs on a fresh object; the two event logs must be identical. writer: init/reset after arbitrary writes behaves like fresh. non-trivial = phase A made progress (>=2 successful calls) before the crash point",
         {"differential against the real code: no model", "sampling"});
-#ifdef SIM_WITH_CPP
     add("C15", "fault_enumeration", {{"cppwrap", 6000}}, {{"cppwrap", 250000}},
         "fault-free: random trees -> put -> serialize == reference encoding; three deserialize overloads -> structural equality; arbitrary bytes: returns normally iff verify(depth 10) accepts, else std::exception. fault-injecting: the k-th operator new inside a Binson call throws for every k (sampled above 300): std::exception or correct completion, never crash/leak. non-trivial = tree with >= 3 nodes or corrupted bytes of length >= 2",
         {"reference encoder", "allocation-failure axis exhaustive per operation up to 300 allocations"});
-#endif
-#endif
+    add("C17", "exploration", {{"interleave", 6000}, {"sloppy", 40000}, {"nav", 30000}, {"traverse", 20000}, {"reuse", 10000}, {"capacity", 300}, {"tostring", 300}},
+        {{"interleave", 300000}, {"sloppy", 1500000}, {"nav", 1000000}, {"traverse", 600000}, {"reuse", 300000}, {"capacity", 10000}, {"tostring", 10000}},
+        "dynamic reading only. (1) interleave: 2-4 caller tasks (real threads parked on semaphores, one released at a time by the seeded scheduler) run sloppy/nav/capacity/tostring/traverse scripts on their own objects; task switches at API-call, token-callback and (yield build) libc-call boundaries; every task's event log must equal its solo log. (2) allocator gate: in the yield build malloc/calloc/realloc/free/aligned_alloc/posix_memalign are wrapped; reaching one while inside a library call is a violation; all engines run under the gate. (3) footprint: stack high-water of every public function on documents with identical leaves at object nesting 1..255, array nesting 1..255 and string sizes 4..65000 must not grow. non-trivial (interleave) = at least 4 task switches; distinct interleavings are counted in model_transitions_covered (hash of the switch sequence)",
+        {"NOT decided: that no execution at all can reach an allocator / recursion / VLA (a statement about object code; the property's own observe_at names nm, -fstack-usage, call graph - static inspection, a different technique)", "a static written and read back between two consecutive yield points of one call is invisible to a serialising scheduler", "the C++ class allocates by design and is outside this property"});
     return v;
 }
 
@@ -135,6 +121,9 @@ int main(int argc, char **argv) {
         Plan p = e->generate(seed, argv[3], strtoull(argv[4], nullptr, 10), tier);
         fprintf(OUT, "%s", plan_to_text(p).c_str());
         rc = 0;
+    } else if (cmd == "footprint") {
+        extern int footprint_cmd(const std::string &, const std::string &);
+        rc = footprint_cmd(arg_val(argc, argv, "--json", ""), arg_val(argc, argv, "--replays", "/verif/replays"));
     } else if (cmd == "props") {
         for (auto &x : make_specs()) fprintf(OUT, "%s\n", x.prop.c_str());
         rc = 0;
